@@ -365,6 +365,14 @@ fn main() {
     {
         let mut v = vec![];
         let deep_type = format!("let x: {}int\n", "{str: [".repeat(12));
+        // unclosed nesting deeper than the limit in TOTAL but mixing bracket kinds so that no single
+        // kind is deeper than the limit (the pre-scan must count them together)
+        let mixed_a = format!("let v = {}1\n", "a[(".repeat(16));
+        let mixed_b = format!("stream S = E\n    .where({}x\n", "f(x => {[".repeat(11));
+        let mixed_c = format!("let v = {}{}1\n", "a[".repeat(16), "(x => {".repeat(8));
+        for t in [mixed_a.as_str(), mixed_b.as_str(), mixed_c.as_str()] {
+            v.push(Case { origin: "fixed".into(), ops: vec![], text: t.to_string() });
+        }
         for t in ["", "\n", "stream X = Y", "stream X = \nfoo", "a\nb", "stream X = Y\n    .where(", "\u{e9}", "fn f():\n    return (", "for i in 0..2:\n    stream S{i} = E\n        .where(x >", deep_type.as_str()] {
             v.push(Case { origin: "fixed".into(), ops: vec![], text: t.to_string() });
         }
